@@ -103,6 +103,9 @@ func (w *world) statCheck(i int) *pbt.Violation {
 		pa, pv, pw, ph := expectedStat(w.c.Incs[i-1])
 		prev = fmt.Sprintf(" (the previous incarnation was audio=%q video=%q %dx%d)", pa, pv, pw, ph)
 	}
+	if w.c.DummyAudio && a == "" && sg.AudioCodec == "AAC" {
+		a = "AAC" // silent AAC inserted by the dummy-audio filter
+	}
 	if sg.AudioCodec != a || sg.VideoCodec != v {
 		return pbt.V("stat/stale-codec", "incarnation %d (%s): StatGroup reports audio_codec=%q video_codec=%q, the current input published audio=%q video=%q%s", i, shape(in.Codecs), sg.AudioCodec, sg.VideoCodec, a, v, prev)
 	}
@@ -316,9 +319,26 @@ const pushCloseGuard = 5 * time.Second
 // ---------------------------------------------------------------------------
 // after the input has gone
 
+// afterEnd judges the outputs of the incarnation that just ended.  When lal's
+// dummy-audio filter was still analysing the stream (holding its first
+// messages back) at that moment, a completeness violation is the loss of the
+// held messages: it gets a signature of its own.
 func (w *world) afterEnd(i, incStart int, before recSnapshot, fsMark int) *pbt.Violation {
+	v := w.afterEndInner(i, incStart, before, fsMark)
 	in := w.c.Incs[i]
-	viaRtsp := in.Input == "rtsp"
+	if v != nil && w.c.DummyAudio && dummyHolding(in, w.c.DummyWaitMs) {
+		switch v.Sig {
+		case "record-flv/incomplete", "record-ts/audio-missing", "record-ts/video-missing", "hls/no-segment", "hls/audio-missing", "hls/video-missing", "http-ts/final-frames-missing":
+			v.Detail = fmt.Sprintf("the dummy-audio filter (wait %d ms) was still holding the first messages of the stream when the input ended, and they were dropped with it — %s: %s", w.c.DummyWaitMs, v.Sig, v.Detail)
+			v.Sig = "dummy-audio/held-messages-lost-at-end"
+		}
+	}
+	return v
+}
+
+func (w *world) afterEndInner(i, incStart int, before recSnapshot, fsMark int) *pbt.Violation {
+	in := w.c.Incs[i]
+	viaRtsp := remuxed(in.Input)
 	who := fmt.Sprintf("incarnation %d (%s, %s input, %d messages, ended by %s)", i, shape(in.Codecs), in.Input, len(w.P)-incStart, in.End)
 
 	// hook: one stop per start
@@ -357,6 +377,35 @@ func (w *world) afterEnd(i, incStart int, before recSnapshot, fsMark int) *pbt.V
 			return pbt.V("record-flv/unparseable", "%s: %s (%d bytes) does not parse completely: %v (%d tags before the error)", who, filepath.Base(path), len(b), err, len(recs))
 		}
 		want := w.P[incStart:]
+		if w.c.DummyAudio && in.Codecs.Audio == "" {
+			// silent AAC (sequence header + frames) inserted by the dummy-audio filter is not something the input published
+			var kept []lalclient.Rec
+			for _, r := range recs {
+				if r.Type != gen.TypeAudio {
+					kept = append(kept, r)
+				}
+			}
+			recs = kept
+		}
+		if viaRtsp && w.c.RtspTail {
+			have := map[string]bool{}
+			for _, r := range recs {
+				as, _ := w.attribute(r)
+				for _, a := range as {
+					have[a.key] = true
+				}
+			}
+			vN, aN := w.tsNeedles(incStart, len(w.P))
+			var missing []string
+			for _, n := range append(vN, aN...) {
+				if !have[string(n.data)] {
+					missing = append(missing, n.what)
+				}
+			}
+			if len(missing) > 0 {
+				return pbt.V("rtsp-input/tail-lost-at-end", "%s: the FLV recording lacks %d of the %d elementary units the %s publisher sent (they were still in lal's A/V interleave queue when the session ended): %v", who, len(missing), len(vN)+len(aN), in.Input, missing)
+			}
+		}
 		if viaRtsp {
 			// the RTSP input reaches the recording through lal's RTP -> RTMP remuxer (own sequence headers, A/V
 			// interleave queue): judged on content — units of this incarnation only, none twice
@@ -438,7 +487,7 @@ func (w *world) afterEnd(i, incStart int, before recSnapshot, fsMark int) *pbt.V
 			if a.gone || a.ts == nil {
 				continue
 			}
-			if v := w.tsPendingAudio(a, i, incStart, who, aNeed); v != nil {
+			if v := w.tsTail(a, i, incStart, who, append(append([]needle(nil), aNeed...), vNeed...)); v != nil {
 				return v
 			}
 		}
@@ -529,7 +578,7 @@ func (w *world) hlsAfterEnd(i, incStart, fsMark int, who string, vNeed, aNeed []
 	} else {
 		expectSeg = len(aNeed) > 0
 	}
-	viaRtsp := in.Input == "rtsp"
+	viaRtsp := remuxed(in.Input)
 	if len(segs) == 0 {
 		if expectSeg && !viaRtsp {
 			return pbt.V("hls/no-segment", "%s: HLS produced no segment at all although the input published %d video frames (first key frame at published index %d) and %d TS-carried audio frames%s", who, countKind(w.P[incStart:], "video"), firstKey, len(aNeed), pendingNote(in))
@@ -624,20 +673,33 @@ func countKind(p []pmsg, kind string) int {
 	return n
 }
 
-// tsPendingAudio: an HTTP-TS consumer that had passed its boundary gate before
-// the last audio frame was published receives that frame (the batch is flushed
-// by the teardown).
-func (w *world) tsPendingAudio(a *attached, i, incStart int, who string, aNeed []needle) *pbt.Violation {
-	if len(aNeed) == 0 {
+// tsTail: an HTTP-TS consumer that had passed its boundary gate before the last
+// TS-carried unit of the incarnation was published receives that unit (batched
+// audio and the start-up queue are flushed by the teardown).  Consumers that
+// stayed attached across an earlier end are included: they passed their gate in
+// a predecessor and must be fed by the successor.
+func (w *world) tsTail(a *attached, i, incStart int, who string, need []needle) *pbt.Violation {
+	if len(need) == 0 {
 		return nil
 	}
-	last := aNeed[len(aNeed)-1]
+	last := need[0]
+	for _, n := range need {
+		if n.idx >= last.idx {
+			last = n
+		}
+	}
 	if last.idx < a.j {
 		return nil
 	}
 	has := func(body []byte) bool {
 		tc, err := demuxTsLive(body)
-		return err == nil && bytes.Contains(tc.audio, last.data)
+		if err != nil {
+			return false
+		}
+		if last.audio {
+			return bytes.Contains(tc.audio, last.data)
+		}
+		return bytes.Contains(tc.video, last.data)
 	}
 	// quick path: it arrives; otherwise wait until nothing is in flight any more
 	prev := -1
@@ -652,18 +714,14 @@ func (w *world) tsPendingAudio(a *attached, i, incStart int, who string, aNeed [
 			stable, prev = 0, n
 		}
 	}
-	// gate passed before the last audio frame was published? (something published earlier has arrived)
+	// gate passed before that unit was published? (something published earlier has arrived)
 	body := a.ts.Body()
 	tc, err := demuxTsLive(body)
 	if err != nil {
 		return nil // judged when the consumer leaves
 	}
-	from := a.j
-	if from < incStart {
-		from = incStart
-	}
 	earlier := ""
-	vN, aN := w.tsNeedles(from, last.idx)
+	vN, aN := w.tsNeedles(a.j, last.idx)
 	for _, n := range append(vN, aN...) {
 		hay := tc.video
 		if n.audio {
@@ -680,7 +738,11 @@ func (w *world) tsPendingAudio(a *attached, i, incStart int, who string, aNeed [
 	if a.ts.WaitPred(has, lalclient.DeliverTimeout) {
 		return nil
 	}
-	return pbt.V("http-ts/final-audio-missing", "%s: HTTP-TS consumer %d (joined at published index %d) received the %s, so it had passed its start gate, but the %s never arrived (%v after the teardown, %d body bytes)%s", who, a.idx, a.j, earlier, last.what, lalclient.DeliverTimeout, len(a.ts.Body()), pendingNote(w.c.Incs[i]))
+	stay := ""
+	if a.j < incStart {
+		stay = ", stayed attached across the end of the previous input"
+	}
+	return pbt.V("http-ts/final-frames-missing", "%s: HTTP-TS consumer %d (joined at published index %d%s) received the %s, so it had passed its start gate, but the %s never arrived (%v after the teardown, %d body bytes)%s", who, a.idx, a.j, stay, earlier, last.what, lalclient.DeliverTimeout, len(a.ts.Body()), pendingNote(w.c.Incs[i]))
 }
 
 // ---------------------------------------------------------------------------
@@ -752,6 +814,9 @@ func (w *world) attribute(r lalclient.Rec) (out []attr, unknown string) {
 		}
 		if pl[0]>>4 == 10 {
 			if pl[1] == 0 {
+				if w.c.DummyAudio && bytes.Equal(pl, []byte{0xaf, 0x00, 0x11, 0x90}) {
+					return nil, "" // the dummy-audio filter's own sequence header (may coincide with an incarnation's config)
+				}
 				for i, in := range w.c.Incs {
 					cd := in.Codecs
 					if cd.Audio == "aac" && bytes.Equal(pl[2:], gen.Asc(cd.AscObj, cd.AscFreq, cd.AscChan)) {
@@ -759,12 +824,18 @@ func (w *world) attribute(r lalclient.Rec) (out []attr, unknown string) {
 					}
 				}
 				if len(out) == 0 {
+					if w.c.DummyAudio {
+						return nil, "" // inserted by the dummy-audio filter
+					}
 					return nil, "AAC sequence header with a config no incarnation uses"
 				}
 				return out, ""
 			}
 			if ref, ok := w.units[string(pl[2:])]; ok {
 				return []attr{{inc: ref.inc, key: string(pl[2:]), what: ref.what}}, ""
+			}
+			if w.c.DummyAudio {
+				return nil, "" // silent frame inserted by the dummy-audio filter
 			}
 			return nil, "AAC frame that was never published"
 		}
@@ -941,7 +1012,9 @@ func (w *world) checkTsConsumer(a *attached, body []byte) *pbt.Violation {
 		return v
 	}
 	cd := w.c.Incs[a.minInc].Codecs
-	if tc.hasV && cd.Video != "" && len(tc.video) > 0 {
+	// (a consumer that stayed into a later incarnation sees that incarnation's tables too: judged on the first only
+	// when it left with the incarnation it joined)
+	if tc.hasV && cd.Video != "" && len(tc.video) > 0 && int(w.endsSeen)-a.ends0 < 2 {
 		want := uint8(tsref.StreamTypeH264)
 		if cd.Video == "hevc" {
 			want = tsref.StreamTypeH265
